@@ -8,5 +8,6 @@ for d in seeded/*/; do
   [ "$1" = "--new" ] && [ "$st" = "done" ] && continue
   out=$(python3 bin/mutant_eval.py run $n quick 2>&1 | tail -1)
   case "$out" in "$n vs "*) echo "$out" | cut -c1-170;; *) echo "$n: ERROR (patch does not apply / harness crashed): $out" | cut -c1-200; continue;; esac
+  [ -n "$MATRIX_QUICK_ONLY" ] && continue
   case "$out" in *"exit=1 violations="[1-9]*) ;; *) python3 bin/mutant_eval.py run $n thorough 2>&1 | tail -1 | cut -c1-170;; esac
 done
